@@ -296,10 +296,11 @@ def check(run):
     cases = os.path.join(run.work, "mc_codec", "codec_cases.json")
     if not os.path.exists(cases):
         raise vp.Undecided("TLC did not write the codec case list")
-    run.tlc_mc("P2P.tla", "MC_P2P.cfg", timeout=900)
-    run.tlc_mc("P2P.tla", "MC_P2P_np3.cfg", timeout=900)
-    if not quick:
-        run.tlc_mc("P2P.tla", "MC_P2P_thorough.cfg", timeout=3000)
+    if not os.environ.get("C20_DEV_SKIP_MC"):        # development aid for mutation self-tests only
+        run.tlc_mc("P2P.tla", "MC_P2P.cfg", timeout=900)
+        run.tlc_mc("P2P.tla", "MC_P2P_np3.cfg", timeout=900)
+        if not quick:
+            run.tlc_mc("P2P.tla", "MC_P2P_thorough.cfg", timeout=2400)
     # design-level reproduction of the deviation: ACTUAL(KF_DispatchReadsTableUnlocked) must violate the invariant
     d = run._tlc_dir("mc_kf", ["MC_P2P_kf.cfg"])
     rc, out, dt = run._tlc(d, ["-workers", "4", "-config", "MC_P2P_kf.cfg", "P2P.tla"], 300)
